@@ -26,6 +26,7 @@ func checkC02(c *Ctx) {
 		"(T4) the segment number handed to the processor is a loop-carried counter that changes in every iteration; after a call with last=true no further segment is processed; (T4-counter-range) between two processor calls an edge bounds the counter so that the number neither wraps nor is truncated (the loop is shared by Encrypt and Decrypt); " +
 		"(T5) a clean close is reachable only after a processor call with last=true (from the entry: T5-first, after a non-final call: T5-next); " +
 		"(H1/H2) in the header reader a source-read error not established to be io.EOF is returned, and the reader handed on (stored through the *io.Reader parameter, or returned) still contains the source unless the source returned io.EOF; " +
+		"(H3) the bytes the header reader read beyond the header are put back in front of the source: the push-back (in the reader or in a helper it delegates to) is skipped only by a guard on the bounds of that leftover slice itself; a guard on the size of a single read, which is only an addend of the total, is a violation, a guard that cannot be related to the bounds is UNDECIDED; " +
 		"(K1) key provenance: Decrypt hands a stream to its caller (or starts the segment phase) only on paths on which UnwrapKeyFn — found through the exported callback type — returned no error, and the key bytes handed to the key import on such a path are the ones it returned: a placeholder substituted after a failed unwrap or for a key of the wrong length is a public constant, so such a path must end in an error whatever the header MAC says (decided with the path explorer from Decrypt's entry, through helpers, flags, (key, ok) results and early returns); " +
 		"(P1) within the segment loop a buffer taken from a sync.Pool is given back at most once on every path and not before a later read / processor call (a twice-released buffer is shared by two later streams and the segment being written to the pipe can be overwritten); " +
 		"(T7) Decrypt returns the read half of the io.Pipe whose write half reaches the segment loop, and the processor the loop gets on the way from Decrypt authenticates (calls AEAD.Open, itself or through same-package functions). " +
@@ -52,6 +53,7 @@ func checkC02(c *Ctx) {
 	r.Rule("C02.T5-next", "segment loop: after a processor call with last=false, a clean close is not reachable without another call", 1)
 	r.Rule("C02.H1-header-read-error-returned", "header reader: a source-read error not established to be io.EOF is returned (never dropped on a success return)", 1)
 	r.Rule("C02.H2-header-keeps-source", "header reader: the reader handed on still contains the source unless the source returned io.EOF", 1)
+	r.Rule("C02.H3-header-overread-pushed-back", "header reader: the bytes read beyond the header are put back in front of the source unless that leftover slice is empty (the guard tests the leftover's own bounds)", 1)
 	r.Rule("C02.K1-key-provenance", "Decrypt hands out a stream (or starts the segment phase) only with the key UnwrapKeyFn returned without an error: a failed unwrap, or a substituted key, ends in an error return", 2)
 	r.Rule("C02.P1-buffer-exclusive", "segment loop: a buffer taken from a sync.Pool is given back at most once on every path and not before a later read / processor call", 1)
 	r.Rule("C02.T7-wiring", "Decrypt returns the pipe fed by the segment loop, whose processor (on the way from Decrypt) authenticates", 2)
